@@ -1,6 +1,7 @@
 package props
 
 import (
+	"fmt"
 	"sort"
 	"testing"
 
@@ -152,6 +153,14 @@ func TestC08(t *testing.T) {
 		if tierThorough() && rapid.IntRange(0, 3).Draw(t, "large") == 0 {
 			o.MaxTrips, o.MaxStopTimes, o.MaxShapes, o.MaxPoints = 12, 40, 6, 40
 		}
+		many := rapid.IntRange(0, 14).Draw(t, "many") == 0
+		if many {
+			// many distinct trips / shapes with few rows each: grouping structures that grow while rows of earlier groups still arrive
+			n := rapid.SampledFrom([]int{17, 33, 40, 70}).Draw(t, "manyN")
+			o.MinTrips, o.MaxTrips, o.MinShapes, o.MaxShapes = n, n, n, n
+			o.MinStopTimes, o.MaxStopTimes, o.MinPoints, o.MaxPoints = 2, 3, 2, 3
+			o.MaxStops, o.MaxFreq, o.MaxTransfers = 6, 0, 0
+		}
 		f, _ := sgen.GenFeed(t, o)
 		var g1, g2 []string
 		for _, st := range f.StopTimes {
@@ -163,7 +172,11 @@ func TestC08(t *testing.T) {
 		p1, k1 := genRowPerm(t, "st", g1)
 		p2, k2 := genRowPerm(t, "shape", g2)
 		c := CaseC08{Feed: f, STPerm: p1, ShapePerm: p2}
-		c08Rec.Eval("stop_times:"+k1, "shapes:"+k2)
+		cls08 := []string{"stop_times:" + k1, "shapes:" + k2}
+		if many {
+			cls08 = append(cls08, fmt.Sprintf("many-groups-%d", len(f.Trips)))
+		}
+		c08Rec.Eval(cls08...)
 		// non-trivial: two trips interleaved and some trip's rows out of order
 		interleaved, outOfOrder := false, false
 		lastSeq := map[string]int{}
